@@ -202,7 +202,10 @@ CLAIMS = {
              'format T references S iff S lists T, once" - for every outcome of every call, except that for '
              'AudioStreamFormat::addReference(track) and AudioTrackFormat::setReference(stream) it is proved for the '
              'successful outcome only (theorems named _partial; the full statement and what is missing are written in the '
-             'file). clearReferences, removeReference (both sides) and Document::remove are proved for every outcome. '
+             'file). clearReferences, removeReference (both sides) and Document::remove are proved for every outcome. From states '
+             'that are also well-formed in the sense of C03 the two failing linking calls are proved as well (Heap/SyncFull.v: '
+             'they can only fail before their first write), hence Sync holds after every history of successful calls '
+             'followed by one call of any outcome. '
              'The missing half - no exception between the two writes of a linking call - is explored: libadm and the '
              'extracted model are run on generated histories over several stream and track formats and the Sync oracle is '
              'applied to libadm after every call, including calls that throw. Parsed files and copies are covered by the '
